@@ -3,7 +3,7 @@
    C07 lemma: indented and compact generation are read back as the same document modulo blank text between
    markup (section 4). *)
 From Coq Require Import List NArith Arith Lia Bool.
-From Wbxml Require Import Model.Codec Model.EncXml Model.XmlRead Proofs.EncXmlProofs.
+From Wbxml Require Import Model.Codec Model.EncXml Model.XmlRead Proofs.CodecProofs Proofs.EncXmlProofs Proofs.EncXmlCdata.
 Import ListNotations.
 Local Open Scope N_scope.
 
@@ -127,8 +127,69 @@ Fixpoint info_g (l : xlang) (o : opts) (parent : pinfo) (s : est) (n : node) {st
       end
     end
   | Text c => text_item l o parent s c
-  | _ => None
+  | CData ch =>
+    (* one CDATA node = its payload as character data (the sections the generator splits it into are put together) *)
+    match ch with
+    | [] => Some ([], set_cdata false (set_cdata true s))
+    | [Text t] => Some ([XT t], mk_est (e_indent s) true false None)
+    | _ => None
+    end
+  | Pi => None
+  | SubTree sl roots =>
+    (* an embedded document: its root element(s) appear in place, generated with the embedded language, the
+       current depth and a fresh in_content *)
+    match sl with
+    | Some l' =>
+      match info_list_g (info_g l' o proot) roots (est0 (e_indent s)) with
+      | Some (its, _) => Some (its, s)
+      | None => None
+      end
+    | None => None
+    end
   end.
+
+(* hypotheses of the property for every kind of node the WBXML tree builder makes.  A CDATA node holds one text
+   (the builder joins adjacent texts; after the repair of D8 it never nests CDATA nodes or puts elements inside):
+   XML characters and no raw CR (inside a section CR is written raw in every mode). *)
+Definition cdata_ok (t : bytes) : bool := forallb is_xml_byte t && no_byte 13 t.
+
+Fixpoint node_ok_g (l : xlang) (o : opts) (parent : pinfo) (cur : option trow) (n : node) {struct n} : bool :=
+  match n with
+  | Elt nm attrs ch =>
+    is_xml_name (tname_bytes nm) &&
+    forallb (attr_ok o) attrs &&
+    nodup_bytes (map fst (spec_attrs l o parent nm attrs)) &&
+    (fix go (cur : option trow) (ns : list node) : bool :=
+       match ns with
+       | [] => true
+       | x :: r => node_ok_g l o (pinfo_below parent nm) cur x && go None r
+       end) (cur_of nm) ch
+  | Text s =>
+    (* content of a binary-flagged element: arbitrary octets (rendered as base64); otherwise XML characters *)
+    if tag_is_binary (text_tag (mk_est 0 false false cur) parent)
+    then forallb (fun c => c <? 256) s && negb (tag_is_type cur)
+    else chars_ok o s
+  | CData ch => match ch with [] => true | [Text t] => cdata_ok t | _ => false end
+  | Pi => false
+  | SubTree sl roots =>
+    match sl with
+    | Some l' =>
+      lang_ok l' &&
+      (fix go (cur : option trow) (ns : list node) : bool :=
+         match ns with
+         | [] => true
+         | x :: r => node_ok_g l' o proot cur x && go None r
+         end) None roots
+    | None => false
+    end
+  end.
+
+Definition nodes_ok_g (l : xlang) (o : opts) (parent : pinfo) : option trow -> list node -> bool :=
+  fix go (cur : option trow) (ns : list node) : bool :=
+    match ns with
+    | [] => true
+    | x :: r => node_ok_g l o parent cur x && go None r
+    end.
 
 (* ------------------------------------------------------------------ *)
 (* 3. reading                                                           *)
@@ -187,64 +248,191 @@ Proof.
   - exact HT.
 Qed.
 
+(* bytes the generator writes are XML bytes (in particular never NUL: an embedded document is appended as a C string) *)
+Lemma name_char_xml c : is_name_char c = true -> is_xml_byte c = true.
+Proof.
+  unfold is_xml_byte. destruct (32 <=? c) eqn:E; [reflexivity|]. apply N.leb_gt in E. intros H. exfalso.
+  unfold is_name_char, is_name_start in H.
+  replace (65 <=? c) with false in H by (symmetry; apply N.leb_gt; lia).
+  replace (97 <=? c) with false in H by (symmetry; apply N.leb_gt; lia).
+  replace (128 <=? c) with false in H by (symmetry; apply N.leb_gt; lia).
+  replace (48 <=? c) with false in H by (symmetry; apply N.leb_gt; lia).
+  replace (c =? 95) with false in H by (symmetry; apply N.eqb_neq; lia).
+  replace (c =? 58) with false in H by (symmetry; apply N.eqb_neq; lia).
+  replace (c =? 45) with false in H by (symmetry; apply N.eqb_neq; lia).
+  replace (c =? 46) with false in H by (symmetry; apply N.eqb_neq; lia).
+  discriminate.
+Qed.
+
+Lemma xml_name_bytes n : is_xml_name n = true -> forallb is_xml_byte n = true.
+Proof.
+  destruct n as [|c r]; [discriminate|]. cbn [is_xml_name forallb]. intros H. apply andb_true_iff in H as [H1 H2].
+  rewrite (name_char_xml c) by (unfold is_name_char; now rewrite H1). cbn [andb].
+  induction r as [|d r IH]; [reflexivity|]. cbn [forallb] in *. apply andb_true_iff in H2 as [A B].
+  now rewrite (name_char_xml d A), (IH B).
+Qed.
+
+Lemma sp_bytes w : forallb is_sp_nl w = true -> forallb is_xml_byte w = true.
+Proof. intros H. exact (ro_bytes _ _ (ws_run_ok w H)). Qed.
+
+Lemma emit_bytes kvs :
+  Forall (fun kv : bytes * bytes * bytes => let '(k, raw, v) := kv in is_xml_name k = true /\ aval_ok raw v) kvs ->
+  forallb is_xml_byte (flat_map emit_attr kvs) = true.
+Proof.
+  induction 1 as [|[[k raw] v] r [Hk Hv] _ IH]; [reflexivity|].
+  cbn [flat_map emit_attr]. rewrite forallb_app, IH, andb_true_r. cbn [forallb]. rewrite !forallb_app.
+  rewrite (xml_name_bytes k Hk), (av_bytes _ _ Hv). reflexivity.
+Qed.
+
+Lemma elt_open_bytes l o parent nm attrs :
+  lang_ok l = true -> is_xml_name (tname_bytes nm) = true -> forallb (attr_ok o) attrs = true ->
+  forallb is_xml_byte (elt_open l o parent nm attrs) = true.
+Proof.
+  intros HL H1 H2. unfold elt_open. cbn [forallb]. rewrite forallb_app, (xml_name_bytes _ H1), emit_triples.
+  now rewrite (emit_bytes _ (ok_triples l o parent nm attrs HL H2)).
+Qed.
+
+Lemma split_bytes t : forallb is_xml_byte t = true -> forallb is_xml_byte (split_cdata_end t) = true.
+Proof.
+  assert (G : forall n t, (length t <= n)%nat -> forallb is_xml_byte t = true -> forallb is_xml_byte (split_cdata_end t) = true).
+  { induction n as [|n IH]; intros u Hl Hb; [destruct u; [reflexivity|cbn in Hl; lia]|].
+    destruct u as [|a [|b [|c r]]]; try exact Hb.
+    rewrite split_3. cbn [forallb length] in Hb, Hl. destruct (is_end a b c).
+    + rewrite forallb_app. apply andb_true_iff in Hb as [_ Hb]. apply andb_true_iff in Hb as [_ Hb]. apply andb_true_iff in Hb as [_ Hb].
+      rewrite (IH r) by (auto; lia). reflexivity.
+    + apply andb_true_iff in Hb as [Ha Hb]. cbn [forallb]. rewrite Ha. apply (IH (b :: c :: r)); [cbn [length]; lia|exact Hb]. }
+  intros H. exact (G (length t) t (le_n _) H).
+Qed.
+
+Lemma cstr_xml b : forallb is_xml_byte b = true -> cstr b = b.
+Proof.
+  intros H. apply cstr_nonzero. rewrite forallb_forall in H. apply Forall_forall. intros x Hx E. subst.
+  specialize (H 0 Hx). discriminate.
+Qed.
+
+(* base64 text is made of XML characters *)
+Definition b64_safe (c : N) : bool := is_xml_byte c && negb (c =? 13).
+Lemma basis_safe_sweep : forallb (fun i => b64_safe (basis i)) (Bits.N_range 64) = true.
+Proof. vm_compute. reflexivity. Qed.
+
+Lemma b64_chars_ok o bs e : forallb (fun c => c <? 256) bs = true -> b64_enc bs = Some e -> chars_ok o e = true.
+Proof.
+  intros H E. assert (HF : Forall (fun b => b < 256) bs).
+  { rewrite forallb_forall in H. apply Forall_forall. intros x Hx. apply N.ltb_lt. now apply H. }
+  destruct bs as [|b0 br]; [discriminate|].
+  assert (He : e = b64_enc_body (b0 :: br)) by (change (b64_enc (b0 :: br)) with (Some (b64_enc_body (b0 :: br))) in E; congruence).
+  subst e. clear E. rewrite (enc_body_shape _ HF).
+  assert (S : forallb b64_safe (map basis (sextets (b0 :: br)) ++ pad (b0 :: br)) = true).
+  { rewrite forallb_app. apply andb_true_iff. split.
+    - pose proof (sextets_lt _ HF) as HS. induction HS as [|x r Hx _ IH]; [reflexivity|]. cbn [map forallb].
+      rewrite IH, andb_true_r. exact (Bits.sweep1 _ 64 basis_safe_sweep x Hx).
+    - unfold pad. destruct (length (b0 :: br) mod 3)%nat as [|[|[|?]]]; reflexivity. }
+  unfold chars_ok. apply andb_true_iff. split.
+  - rewrite forallb_forall in S |- *. intros x Hx. specialize (S x Hx). unfold b64_safe in S. now apply andb_true_iff in S as [S _].
+  - apply orb_true_iff. right. unfold no_byte. rewrite forallb_forall in S |- *. intros x Hx. specialize (S x Hx).
+    unfold b64_safe in S. now apply andb_true_iff in S as [_ S].
+Qed.
+
+Lemma rewrite_not_type l cur s : tag_is_type cur = false -> syncml_type_rewrite l cur s = s.
+Proof. intros H. unfold syncml_type_rewrite. rewrite H, !andb_false_r. reflexivity. Qed.
+
+Definition seq_fuel (ch : list node) : nat := fold_right (fun x a => node_fuel x + a)%nat 0%nat ch.
+
+(* reading a sequence of sibling nodes, in continuation form (as reads_node) *)
+Definition reads_seq (ch : list node) (b : bytes) (its : list xitem) : Prop :=
+  forall pre tpre acc tail f x,
+    run_ok pre tpre ->
+    (forall pre2 tpre2 acc2,
+        run_ok pre2 tpre2 ->
+        push_text tpre2 acc2 = fold_left push_item its (push_text tpre acc) ->
+        p_content f (pre2 ++ tail) acc2 = ROk x) ->
+    p_content (seq_fuel ch + f) (pre ++ b ++ tail) acc = ROk x.
+
+(* the children of an element, up to its end tag, with the white space [post] written before the end tag *)
 Definition reads_list_g (ch : list node) (b : bytes) (its : list xitem) : Prop :=
   forall pre tpre post acc rest f,
     run_ok pre tpre -> run_ok post post ->
     p_content (list_fuel ch + f) (pre ++ b ++ post ++ 60 :: 47 :: rest) acc =
     ROk (rev (fold_left push_item (its ++ [XT post]) (push_text tpre acc)), rest).
 
+Lemma seq_to_list ch b its : reads_seq ch b its -> reads_list_g ch b its.
+Proof.
+  intros Hs pre tpre post acc rest f Hrun Hpost.
+  replace (list_fuel ch + f)%nat with (seq_fuel ch + (2 + f))%nat by (unfold list_fuel, seq_fuel; lia).
+  apply (Hs pre tpre acc (post ++ 60 :: 47 :: rest) (2 + f)%nat _ Hrun).
+  intros pre2 tpre2 acc2 Hrun2 Heq. rewrite app_assoc.
+  apply (flush_run (pre2 ++ post) (tpre2 ++ post) (S f) _ acc2 _ (run_ok_app _ _ _ _ Hrun2 Hpost)).
+  rewrite push_text_app, Heq, fold_left_app. reflexivity.
+Qed.
+
 Definition node_main_g_stmt (n : node) : Prop :=
   forall l o parent s b s',
     lang_ok l = true -> e_in_cdata s = false ->
-    node_ok l o parent (e_cur_tag s) n = true ->
+    node_ok_g l o parent (e_cur_tag s) n = true ->
     enc_node l o parent s n = XOk (b, s') ->
-    e_in_cdata s' = false /\ exists its, info_g l o parent s n = Some (its, s') /\ reads_node n b its.
+    e_in_cdata s' = false /\ forallb is_xml_byte b = true /\
+    exists its, info_g l o parent s n = Some (its, s') /\ reads_node n b its.
+
+Lemma seq_main ch :
+  Forall node_main_g_stmt ch ->
+  forall l o parent s b s',
+    lang_ok l = true -> e_in_cdata s = false ->
+    nodes_ok_g l o parent (e_cur_tag s) ch = true ->
+    seq_nodes (enc_node l o parent) ch s = XOk (b, s') ->
+    e_in_cdata s' = false /\ forallb is_xml_byte b = true /\
+    exists its, info_list_g (info_g l o parent) ch s = Some (its, s') /\ reads_seq ch b its.
+Proof.
+  induction 1 as [|n ch Hn Hch IH]; intros l o parent s b s' HL Hc Hok Henc.
+  - cbn in Henc. injection Henc as <- <-. split; [exact Hc|]. split; [reflexivity|]. exists []. split; [reflexivity|].
+    intros pre tpre acc tail f x Hrun Hk. cbn [app seq_fuel fold_right Nat.add]. apply (Hk pre tpre acc Hrun). reflexivity.
+  - cbn [seq_nodes] in Henc.
+    destruct (enc_node l o parent s n) as [[b1 s1]|e] eqn:E1; [|discriminate].
+    cbn [nodes_ok_g] in Hok. apply andb_true_iff in Hok as [Hok1 Hok2].
+    destruct (Hn l o parent s b1 s1 HL Hc Hok1 E1) as (Hc1 & Hb1 & its1 & Hi1 & Hr1).
+    match type of Henc with context [?g ch (reset_cur s1)] =>
+      destruct (g ch (reset_cur s1)) as [[b2 s2]|e] eqn:E2; [|discriminate] end.
+    injection Henc as <- <-.
+    destruct (IH l o parent (reset_cur s1) b2 s2 HL Hc1 Hok2 E2) as (Hc2 & Hb2 & its2 & Hi2 & Hr2).
+    split; [exact Hc2|]. split; [now rewrite forallb_app, Hb1, Hb2|]. exists (its1 ++ its2). split.
+    + cbn [info_list_g]. rewrite Hi1. cbn [info_list_g] in Hi2. rewrite Hi2. reflexivity.
+    + intros pre tpre acc tail f x Hrun Hk.
+      replace (seq_fuel (n :: ch) + f)%nat with (node_fuel n + (seq_fuel ch + f))%nat by (unfold seq_fuel; cbn [fold_right]; lia).
+      rewrite <- app_assoc.
+      apply (Hr1 pre tpre acc (b2 ++ tail) (seq_fuel ch + f)%nat _ Hrun).
+      intros pre2 tpre2 acc2 Hrun2 Heq.
+      apply (Hr2 pre2 tpre2 acc2 tail f x Hrun2).
+      intros pre3 tpre3 acc3 Hrun3 Heq3. apply (Hk pre3 tpre3 acc3 Hrun3). now rewrite Heq3, Heq, fold_left_app.
+Qed.
 
 Lemma list_main_g ch :
   Forall node_main_g_stmt ch ->
   forall l o parent s b s',
     lang_ok l = true -> e_in_cdata s = false ->
-    nodes_ok l o parent (e_cur_tag s) ch = true ->
+    nodes_ok_g l o parent (e_cur_tag s) ch = true ->
     seq_nodes (enc_node l o parent) ch s = XOk (b, s') ->
-    e_in_cdata s' = false /\ exists its, info_list_g (info_g l o parent) ch s = Some (its, s') /\ reads_list_g ch b its.
+    e_in_cdata s' = false /\ forallb is_xml_byte b = true /\
+    exists its, info_list_g (info_g l o parent) ch s = Some (its, s') /\ reads_list_g ch b its.
 Proof.
-  induction 1 as [|n ch Hn Hch IH]; intros l o parent s b s' HL Hc Hok Henc.
-  - cbn in Henc. injection Henc as <- <-. split; [exact Hc|]. exists []. split; [reflexivity|].
-    intros pre tpre post acc rest f Hrun Hpost. cbn [app fold_left list_fuel fold_right Nat.add push_item].
-    rewrite app_assoc.
-    apply (flush_run (pre ++ post) (tpre ++ post) (S f) _ acc _ (run_ok_app _ _ _ _ Hrun Hpost)).
-    rewrite push_text_app. reflexivity.
-  - cbn [seq_nodes] in Henc.
-    destruct (enc_node l o parent s n) as [[b1 s1]|e] eqn:E1; [|discriminate].
-    cbn [nodes_ok] in Hok. apply andb_true_iff in Hok as [Hok1 Hok2].
-    destruct (Hn l o parent s b1 s1 HL Hc Hok1 E1) as (Hc1 & its1 & Hi1 & Hr1).
-    match type of Henc with context [?g ch (reset_cur s1)] =>
-      destruct (g ch (reset_cur s1)) as [[b2 s2]|e] eqn:E2; [|discriminate] end.
-    injection Henc as <- <-.
-    destruct (IH l o parent (reset_cur s1) b2 s2 HL Hc1 Hok2 E2) as (Hc2 & its2 & Hi2 & Hr2).
-    split; [exact Hc2|]. exists (its1 ++ its2). split.
-    + cbn [info_list_g]. rewrite Hi1. cbn [info_list_g] in Hi2. rewrite Hi2. reflexivity.
-    + intros pre tpre post acc rest f Hrun Hpost.
-      replace (list_fuel (n :: ch) + f)%nat with (node_fuel n + (list_fuel ch + f))%nat by (unfold list_fuel; cbn [fold_right]; lia).
-      rewrite <- app_assoc.
-      apply (Hr1 pre tpre acc (b2 ++ post ++ 60 :: 47 :: rest) (list_fuel ch + f)%nat _ Hrun).
-      intros pre2 tpre2 acc2 Hrun2 Heq.
-      rewrite (Hr2 pre2 tpre2 post acc2 rest f Hrun2 Hpost). rewrite Heq, <- app_assoc, !fold_left_app. reflexivity.
+  intros HF l o parent s b s' HL Hc Hok Henc.
+  destruct (seq_main ch HF l o parent s b s' HL Hc Hok Henc) as (A & B & its & C & D).
+  split; [exact A|]. split; [exact B|]. exists its. split; [exact C|now apply seq_to_list].
 Qed.
 
 Lemma node_main_g : forall n, node_main_g_stmt n.
 Proof.
-  induction n as [nm attrs ch IHch|t|ch _| |sl roots _] using node_ind2;
+  induction n as [nm attrs ch IHch|t|ch _| |sl roots IHr] using node_ind2;
     intros l o parent s b s' HL Hc Hok Henc; try discriminate.
   - (* element *)
     rewrite (enc_elt_gen l o parent s nm attrs ch) in Henc.
-    cbn [node_ok] in Hok.
+    cbn [node_ok_g] in Hok.
     change ((fix go (cur0 : option trow) (ns : list node) {struct ns} : bool :=
-               match ns with [] => true | x :: r => node_ok l o (pinfo_below parent nm) cur0 x && go None r end) (cur_of nm) ch)
-      with (nodes_ok l o (pinfo_below parent nm) (cur_of nm) ch) in Hok.
+               match ns with [] => true | x :: r => node_ok_g l o (pinfo_below parent nm) cur0 x && go None r end) (cur_of nm) ch)
+      with (nodes_ok_g l o (pinfo_below parent nm) (cur_of nm) ch) in Hok.
     apply andb_true_iff in Hok as [Hok Hok4]. apply andb_true_iff in Hok as [Hok Hok3].
     apply andb_true_iff in Hok as [Hok1 Hok2].
     pose proof (elt_open_read l o parent nm attrs HL Hok1 Hok2 Hok3) as Hopen.
+    pose proof (elt_open_bytes l o parent nm attrs HL Hok1 Hok2) as Bopen.
+    pose proof (xml_name_bytes _ Hok1) as Bname.
     pose proof (ws_run_ok _ (w0_sp o s)) as Rw0.
     pose proof (ws_run_ok _ (nl_if_sp o)) as Rnl.
     destruct ch as [|c0 ch0].
@@ -252,6 +440,7 @@ Proof.
       assert (Hb : b = w0 o s ++ elt_open l o parent nm attrs ++ 47 :: 62 :: nl_if o) by congruence.
       assert (Hs' : s' = set_cur (cur_of nm) s) by congruence. subst b s'. clear Henc.
       split; [exact Hc|].
+      split; [rewrite !forallb_app, (sp_bytes _ (w0_sp o s)), Bopen; cbn [forallb]; now rewrite (sp_bytes _ (nl_if_sp o))|].
       eexists. split; [reflexivity|].
       intros pre tpre acc tail f x Hrun Hk.
       cbn [node_fuel fold_right].
@@ -274,8 +463,11 @@ Proof.
       assert (Hcur : e_cur_tag (s_in o (c0 :: ch0) nm s) = cur_of nm) by (unfold s_in; destruct (hc o (c0 :: ch0)); reflexivity).
       rewrite <- Hcur in Hok4.
       destruct (list_main_g (c0 :: ch0) IHch l o (pinfo_below parent nm) (s_in o (c0 :: ch0) nm s) b4 s4 HL Hcin Hok4 E4)
-        as (Hc4 & its & Hinfo & Hread).
+        as (Hc4 & Bb4 & its & Hinfo & Hread).
       split; [exact Hc4|].
+      split.
+      { rewrite !forallb_app, (sp_bytes _ (w0_sp o s)), Bopen. cbn [forallb andb]. rewrite !forallb_app, (sp_bytes _ (w1_sp o _)), Bb4,
+          (sp_bytes _ (w2_sp o _ s4)). cbn [forallb andb]. rewrite !forallb_app, Bname. cbn [forallb andb]. now rewrite (sp_bytes _ (nl_if_sp o)). }
       eexists. split.
       { cbn [info_g]. rewrite Hinfo. reflexivity. }
       intros pre tpre acc tail f x Hrun Hk.
@@ -302,21 +494,76 @@ Proof.
       eapply p_content_mono; [apply (Hk (nl_if o) (nl_if o) _ Rnl)|lia].
       cbn [fold_left push_item merge_items]. now rewrite push_text_app.
   - (* text *)
-    cbn [node_ok] in Hok. apply andb_true_iff in Hok as [Hok1 Hok2]. apply negb_true_iff in Hok2.
-    rewrite (text_tag_ext (mk_est 0 false false (e_cur_tag s)) s parent) in Hok2 by reflexivity.
+    cbn [node_ok_g] in Hok.
+    rewrite (text_tag_ext (mk_est 0 false false (e_cur_tag s)) s parent) in Hok by reflexivity.
     cbn [enc_node] in Henc. unfold parse_text in Henc. cbn [info_g]. unfold text_item.
-    destruct (text_policy o parent s t) as [c|] eqn:EP.
-    + unfold xml_encode_text in Henc. rewrite Hc, Hok2 in Henc. injection Henc as <- <-.
-      split; [reflexivity|]. rewrite Hok2, Hc. eexists. split; [reflexivity|].
+    destruct (tag_is_binary (text_tag s parent)) eqn:EB.
+    + (* content of a binary-flagged element: base64 *)
+      apply andb_true_iff in Hok as [Hok1 Hok2]. apply negb_true_iff in Hok2.
+      assert (EP : text_policy o parent s t = Some t) by (unfold text_policy; rewrite Hc, EB; reflexivity).
+      rewrite EP in *. unfold xml_encode_text in Henc. rewrite Hc, EB in Henc.
+      rewrite (rewrite_not_type l _ t Hok2) in *.
+      destruct (b64_enc t) as [e|] eqn:E64; [|discriminate]. injection Henc as <- <-.
+      pose proof (b64_chars_ok o t e Hok1 E64) as Hch.
+      pose proof (escape_run_ok o _ Hch) as Hrun2.
+      split; [reflexivity|]. split; [exact (ro_bytes _ _ Hrun2)|]. rewrite Hc. eexists. split; [reflexivity|].
       intros pre tpre acc tail f x Hrun Hk. cbn [node_fuel Nat.add].
-      pose proof (text_policy_chars o parent s t c Hok1 EP) as Hch.
-      pose proof (chars_ok_rewrite l o (e_cur_tag s) c Hch) as Hch2.
-      pose proof (escape_run_ok o _ Hch2) as Hrun2.
       rewrite app_assoc. apply (Hk _ _ acc (run_ok_app _ _ _ _ Hrun Hrun2)).
       cbn [fold_left push_item]. apply push_text_app.
-    + injection Henc as <- <-. split; [exact Hc|]. eexists. split; [reflexivity|].
-      intros pre tpre acc tail f x Hrun Hk. cbn [node_fuel Nat.add app].
-      apply (Hk pre tpre acc Hrun). reflexivity.
+    + destruct (text_policy o parent s t) as [c|] eqn:EP.
+      * unfold xml_encode_text in Henc. rewrite Hc, EB in Henc. injection Henc as <- <-.
+        pose proof (text_policy_chars o parent s t c Hok EP) as Hch.
+        pose proof (chars_ok_rewrite l o (e_cur_tag s) c Hch) as Hch2.
+        pose proof (escape_run_ok o _ Hch2) as Hrun2.
+        split; [reflexivity|]. split; [exact (ro_bytes _ _ Hrun2)|]. rewrite Hc. eexists. split; [reflexivity|].
+        intros pre tpre acc tail f x Hrun Hk. cbn [node_fuel Nat.add].
+        rewrite app_assoc. apply (Hk _ _ acc (run_ok_app _ _ _ _ Hrun Hrun2)).
+        cbn [fold_left push_item]. apply push_text_app.
+      * injection Henc as <- <-. split; [exact Hc|]. split; [reflexivity|]. eexists. split; [reflexivity|].
+        intros pre tpre acc tail f x Hrun Hk. cbn [node_fuel Nat.add app].
+        apply (Hk pre tpre acc Hrun). reflexivity.
+  - (* CDATA node *)
+    cbn [node_ok_g] in Hok. destruct ch as [|[| t | | |] [|c1 ch1]]; try discriminate.
+    + (* empty section *)
+      cbn [enc_node seq_nodes] in Henc. injection Henc as <- <-.
+      split; [reflexivity|]. split; [reflexivity|]. eexists. split; [reflexivity|].
+      intros pre tpre acc tail f x Hrun Hk. cbn [node_fuel fold_right Nat.add].
+      replace (pre ++ (s_cdata_open ++ [] ++ s_cdata_close) ++ tail)
+        with (pre ++ 60 :: 33 :: s_cdata_tail ++ split_cdata_end [] ++ 93 :: 93 :: 62 :: tail) by reflexivity.
+      change (2 + 0 + f)%nat with (S (1 + f)).
+      apply (flush_run pre tpre _ _ acc x Hrun).
+      apply (cdata_read 0 [] (le_n _) eq_refl eq_refl).
+      cbn [push_text]. apply (Hk [] [] _ run_ok_nil). reflexivity.
+    + (* one payload text *)
+      unfold cdata_ok in Hok. apply andb_true_iff in Hok as [Hb13 Hcr].
+      cbn [enc_node seq_nodes] in Henc. unfold parse_text, text_policy, xml_encode_text in Henc.
+      cbn [set_cdata e_in_cdata negb andb] in Henc.
+      match type of Henc with XOk (?bb, ?ss) = _ => assert (Hb' : b = bb) by congruence; assert (Hs' : s' = ss) by congruence end.
+      subst b s'. clear Henc.
+      split; [reflexivity|].
+      split; [rewrite !forallb_app, (split_bytes t Hb13); reflexivity|].
+      eexists. split; [reflexivity|].
+      intros pre tpre acc tail f x Hrun Hk. cbn [node_fuel fold_right].
+      replace (pre ++ (s_cdata_open ++ (split_cdata_end t ++ []) ++ s_cdata_close) ++ tail)
+        with (pre ++ 60 :: 33 :: s_cdata_tail ++ split_cdata_end t ++ 93 :: 93 :: 62 :: tail)
+        by (rewrite app_nil_r; unfold s_cdata_open, s_cdata_close; repeat (rewrite <- app_assoc || rewrite <- app_comm_cons); reflexivity).
+      replace (2 + (length t + 0) + f)%nat with (S (S (length t) + f)) by lia.
+      apply (flush_run pre tpre _ _ acc x Hrun).
+      apply (cdata_read (length t) t (le_n _) Hb13 Hcr).
+      apply (Hk [] [] _ run_ok_nil). reflexivity.
+  - (* embedded document *)
+    cbn [node_ok_g] in Hok. destruct sl as [l'|]; [|discriminate]. apply andb_true_iff in Hok as [HL' Hok].
+    change ((fix go (cur0 : option trow) (ns : list node) {struct ns} : bool :=
+               match ns with [] => true | x :: r => node_ok_g l' o proot cur0 x && go None r end) None roots)
+      with (nodes_ok_g l' o proot None roots) in Hok.
+    cbn [enc_node] in Henc.
+    destruct (seq_nodes (enc_node l' o proot) roots (est0 (e_indent s))) as [[b0 s0]|e] eqn:E0; [|discriminate].
+    injection Henc as <- <-.
+    destruct (seq_main roots IHr l' o proot (est0 (e_indent s)) b0 s0 HL' eq_refl Hok E0) as (_ & Bb0 & its & Hinfo & Hseq).
+    rewrite (cstr_xml b0 Bb0).
+    split; [exact Hc|]. split; [exact Bb0|]. exists its. split.
+    { cbn [info_g]. rewrite Hinfo. reflexivity. }
+    intros pre tpre acc tail f x Hrun Hk. cbn [node_fuel]. exact (Hseq pre tpre acc tail f x Hrun Hk).
 Qed.
 
 (* ------------------------------------------------------------------ *)
@@ -375,7 +622,7 @@ Qed.
    that indented generation writes between markup) *)
 Theorem read_enc_g l o nm attrs ch out :
   lang_ok l = true ->
-  node_ok l o proot None (Elt nm attrs ch) = true ->
+  node_ok_g l o proot None (Elt nm attrs ch) = true ->
   enc_xml_opts l o [Elt nm attrs ch] = XOk out ->
   exists c s',
     info_g l o proot (est0 0) (Elt nm attrs ch) =
@@ -386,13 +633,13 @@ Proof.
   intros HL Hok Henc. unfold enc_xml_opts, enc_nodes in Henc. cbn [seq_nodes] in Henc.
   destruct (enc_node l o proot (est0 0) (Elt nm attrs ch)) as [[b s1]|e] eqn:E; [|discriminate].
   assert (Hout : out = xml_header l o ++ b ++ []) by congruence. subst out. clear Henc.
-  destruct (node_main_g (Elt nm attrs ch) l o proot (est0 0) b s1 HL eq_refl Hok E) as (_ & its & Hinfo & Hread).
+  destruct (node_main_g (Elt nm attrs ch) l o proot (est0 0) b s1 HL eq_refl Hok E) as (_ & _ & its & Hinfo & Hread).
   destruct (info_g_elt_shape _ _ _ _ _ _ _ _ _ Hinfo) as (c & Eits). rewrite w0_root in Eits. subst its.
   exists c, s1. split; [exact Hinfo|]. intros fuel Hfuel.
   rewrite app_nil_r. rewrite (header_read_g l o fuel b HL).
   assert (Hb : exists c1 rb, b = 60 :: c1 :: rb /\ is_name_start c1 = true).
   { rewrite (enc_elt_gen l o proot (est0 0) nm attrs ch) in E. rewrite w0_root in E.
-    cbn [node_ok] in Hok. apply andb_true_iff in Hok as [Hok _]. apply andb_true_iff in Hok as [Hok _].
+    cbn [node_ok_g] in Hok. apply andb_true_iff in Hok as [Hok _]. apply andb_true_iff in Hok as [Hok _].
     apply andb_true_iff in Hok as [Hok _]. destruct (name_not_special _ Hok) as (c1 & rn & En & Hs).
     destruct ch as [|c0 ch0].
     - injection E as <- _. unfold elt_open. rewrite En. cbn [app]. eauto.
@@ -582,26 +829,20 @@ Definition rel_res (r1 r2 : option (list xitem * est)) : Prop :=
   | _, _ => False
   end.
 
-Lemma node_xe l o p s n its s' :
-  info_g l o p s n = Some (its, s') -> existsb is_xe its = match n with Elt _ _ _ => true | _ => false end.
+Lemma list_xe l o p ch : forall s its s',
+  info_list_g (info_g l o p) ch s = Some (its, s') -> have_child_elt ch = true -> existsb is_xe its = true.
 Proof.
-  destruct n; try discriminate.
-  - intros H. destruct (info_g_elt_shape _ _ _ _ _ _ _ _ _ H) as (c & ->). reflexivity.
-  - cbn [info_g]. unfold text_item. destruct (text_policy o p s s0); [|intros E; now injection E as <- _].
-    destruct (tag_is_binary _); [destruct (b64_enc _); [|discriminate]|]; intros E; now injection E as <- _.
+  induction ch as [|n r IH]; intros s its s' H HC; [discriminate|].
+  cbn [info_list_g] in H. destruct (info_g l o p s n) as [[a s1]|] eqn:E1; [|discriminate].
+  fold (info_list_g (info_g l o p)) in H.
+  destruct (info_list_g (info_g l o p) r (reset_cur s1)) as [[b s2]|] eqn:E2; [|discriminate].
+  injection H as <- _. rewrite existsb_app. unfold have_child_elt in HC. cbn [existsb] in HC.
+  destruct n; cbn [orb] in HC; try (rewrite (IH _ _ _ E2 HC); apply orb_true_r).
+  destruct (info_g_elt_shape _ _ _ _ _ _ _ _ _ E1) as (c & ->). reflexivity.
 Qed.
 
-Lemma list_xe l o p ch : forall s its s',
-  info_list_g (info_g l o p) ch s = Some (its, s') -> existsb is_xe its = have_child_elt ch.
-Proof.
-  induction ch as [|n r IH]; intros s its s' H.
-  - cbn in H. now injection H as <- _.
-  - cbn [info_list_g] in H. destruct (info_g l o p s n) as [[a s1]|] eqn:E1; [|discriminate].
-    fold (info_list_g (info_g l o p)) in H.
-    destruct (info_list_g (info_g l o p) r (reset_cur s1)) as [[b s2]|] eqn:E2; [|discriminate].
-    injection H as <- _. rewrite existsb_app, (node_xe _ _ _ _ _ _ _ E1), (IH _ _ _ E2).
-    unfold have_child_elt. cbn [existsb]. reflexivity.
-Qed.
+Lemma wsrel_xe l1 l2 : wsrel l1 l2 -> existsb is_xe l1 = existsb is_xe l2.
+Proof. induction 1; cbn [existsb is_xe orb]; auto. Qed.
 
 Section IndentVsCompact.
   Variables (d d' : N) (ig rb : bool).
@@ -644,7 +885,7 @@ Section IndentVsCompact.
 
   Lemma rel_node : forall n, rel_node_stmt n.
   Proof.
-    induction n as [nm attrs ch IHch|t|ch _| |sl roots _] using node_ind2; intros l parent s1 s2 Hs; try exact I.
+    induction n as [nm attrs ch IHch|t|ch _| |sl roots IHr] using node_ind2; intros l parent s1 s2 Hs; try exact I.
     - cbn [info_g]. destruct ch as [|c0 ch0].
       + unfold rel_res. split.
         * apply wr_elt; try (apply sp_allws; first [apply w0_sp|apply nl_if_sp]); [reflexivity|constructor].
@@ -658,17 +899,31 @@ Section IndentVsCompact.
         destruct HL as [Hw [Hc Hd]]. unfold rel_res. split.
         * apply wr_elt; try (apply sp_allws; first [apply w0_sp|apply nl_if_sp]); [|constructor].
           rewrite !nb_xe. f_equal.
-          pose proof (list_xe _ _ _ _ _ _ _ E1) as X1. pose proof (list_xe _ _ _ _ _ _ _ E2) as X2.
-          destruct (have_child_elt (c0 :: ch0)) eqn:HC.
-          -- rewrite !nb_merge by (cbn [existsb is_xe orb]; rewrite existsb_app; first [rewrite X1|rewrite X2]; reflexivity).
+          pose proof (wsrel_xe _ _ Hw) as HX.
+          destruct (existsb is_xe i2) eqn:X2.
+          -- rewrite !nb_merge by (cbn [existsb is_xe orb]; rewrite existsb_app; first [rewrite HX|rewrite X2]; reflexivity).
              cbn [nf]. cbn [app].
              rewrite <- (app_nil_r (w1 oi (c0 :: ch0))), <- (app_nil_r (w1 oc (c0 :: ch0))).
              rewrite !nf_lead by (apply sp_allws, w1_sp).
              apply wsrel_nf; [exact Hw| |]; apply sp_allws, w2_sp.
-          -- assert (i1 = i2) by (apply wsrel_no_xe; [exact Hw|now rewrite X2]). subst i2.
+          -- assert (i1 = i2) by (apply wsrel_no_xe; [exact Hw|exact X2]). subst i2.
+             assert (HC : have_child_elt (c0 :: ch0) = false).
+             { destruct (have_child_elt (c0 :: ch0)) eqn:HC; [|reflexivity].
+               rewrite (list_xe _ _ _ _ _ _ _ E2 HC) in X2. discriminate. }
              unfold w1, w2, hc. rewrite HC, !andb_false_r. reflexivity.
         * unfold s_out. split; [exact Hc|exact Hd].
     - cbn [info_g]. now apply text_item_rel.
+    - (* CDATA node: the payload, identical in both modes *)
+      cbn [info_g]. destruct ch as [|[| t | | |] [|c1 ch1]]; try exact I.
+      + unfold rel_res. split; [constructor|]. destruct Hs as [Hc Hd]. split; [exact Hc|reflexivity].
+      + unfold rel_res. split; [repeat constructor|]. split; reflexivity.
+    - (* embedded document *)
+      cbn [info_g]. destruct sl as [l'|]; [|exact I].
+      assert (H0 : st_rel (est0 (e_indent s1)) (est0 (e_indent s2))) by (split; reflexivity).
+      pose proof (rel_list roots IHr l' proot _ _ H0) as HL. unfold rel_res in HL.
+      destruct (info_list_g (info_g l' oi proot) roots (est0 (e_indent s1))) as [[i1 t1]|],
+               (info_list_g (info_g l' oc proot) roots (est0 (e_indent s2))) as [[i2 t2]|]; try contradiction; [|exact I].
+      destruct HL as [Hw _]. unfold rel_res. split; [exact Hw|exact Hs].
   Qed.
 End IndentVsCompact.
 
@@ -684,16 +939,19 @@ Proof.
 Qed.
 
 Lemma node_ok_opts : forall n l o1 o2 parent cur, is_canonical o1 = is_canonical o2 ->
-  node_ok l o1 parent cur n = node_ok l o2 parent cur n.
+  node_ok_g l o1 parent cur n = node_ok_g l o2 parent cur n.
 Proof.
-  induction n as [nm attrs ch IHch|t|ch _| |sl roots _] using node_ind2; intros l o1 o2 parent cur H; try reflexivity.
-  - cbn [node_ok]. rewrite (spec_attrs_opts l o1 o2 parent nm attrs H).
+  induction n as [nm attrs ch IHch|t|ch _| |sl roots IHr] using node_ind2; intros l o1 o2 parent cur H; try reflexivity.
+  - cbn [node_ok_g]. rewrite (spec_attrs_opts l o1 o2 parent nm attrs H).
     assert (A : forallb (attr_ok o1) attrs = forallb (attr_ok o2) attrs).
     { induction attrs as [|a r IHa]; [reflexivity|]. cbn [forallb]. rewrite IHa. f_equal. unfold attr_ok. now rewrite (chars_ok_opts o1 o2 _ H). }
     rewrite A. f_equal.
     generalize (cur_of nm). induction IHch as [|x r Hx Hr IH]; intros c; [reflexivity|].
     rewrite (Hx l o1 o2 (pinfo_below parent nm) c H). f_equal. apply IH.
-  - cbn [node_ok]. now rewrite (chars_ok_opts o1 o2 t H).
+  - cbn [node_ok_g]. now rewrite (chars_ok_opts o1 o2 t H).
+  - cbn [node_ok_g]. destruct sl as [l'|]; [|reflexivity]. f_equal.
+    generalize (@None trow). induction IHr as [|x r Hx Hr IH]; intros c; [reflexivity|].
+    rewrite (Hx l' o1 o2 proot c H). f_equal. apply IH.
 Qed.
 
 Lemma wsrel_root_inv u1 n1 a1 c1 v1 u2 n2 a2 c2 v2 :
@@ -708,7 +966,7 @@ Qed.
    blank text between markup (nb). *)
 Theorem c07_xml_indent_compact l indent indent' keep_ws nm attrs ch out_i out_c :
   lang_ok l = true ->
-  node_ok l (opts_of_params Compact indent' keep_ws) proot None (Elt nm attrs ch) = true ->
+  node_ok_g l (opts_of_params Compact indent' keep_ws) proot None (Elt nm attrs ch) = true ->
   enc_xml l Indent indent keep_ws [Elt nm attrs ch] = XOk out_i ->
   enc_xml l Compact indent' keep_ws [Elt nm attrs ch] = XOk out_c ->
   forall fuel, (node_fuel (Elt nm attrs ch) + 2 <= fuel)%nat ->
@@ -716,7 +974,7 @@ Theorem c07_xml_indent_compact l indent indent' keep_ws nm attrs ch out_i out_c 
       read_xml fuel out_i = ROk (doc_of l [ri]) /\ read_xml fuel out_c = ROk (doc_of l [rc]) /\ nb ri = nb rc.
 Proof.
   intros HL Hokc Ei Ec fuel Hf.
-  assert (Hoki : node_ok l (opts_of_params Indent indent keep_ws) proot None (Elt nm attrs ch) = true)
+  assert (Hoki : node_ok_g l (opts_of_params Indent indent keep_ws) proot None (Elt nm attrs ch) = true)
     by (rewrite (node_ok_opts _ l _ (opts_of_params Compact indent' keep_ws)); [exact Hokc|reflexivity]).
   destruct (read_enc_g l _ nm attrs ch out_i HL Hoki Ei) as (ci & si & Ii & Ri).
   destruct (read_enc_g l _ nm attrs ch out_c HL Hokc Ec) as (cc & sc & Ic & Rc).
